@@ -44,8 +44,20 @@ func Facts() (string, error) {
 	if err != nil {
 		return "", err
 	}
+	shared, err := SharedLeaves(fs)
+	if err != nil {
+		return "", err
+	}
+	for i := range fs {
+		switch {
+		case !shared[fs[i].Go]:
+			fs[i].Via = "" // behind a pointer, but the compiled Load does not write through it
+		case fs[i].Via == "":
+			fs[i].Via = fs[i].Go
+		}
+	}
 	var b strings.Builder
-	b.WriteString("/-- (Go path, effective mapstructure key path, yaml key path, kind, canonical default, Go path of the pointer field of DefaultConfig behind which the leaf lives or \"\") -/\n")
+	b.WriteString("/-- (Go path, effective mapstructure key path, yaml key path, kind, canonical default, if the real Load overwrites this leaf of DefaultConfig: Go path of the pointer field behind which it lives, else \"\") -/\n")
 	b.WriteString("abbrev FieldRow := String × String × String × String × String × String\n")
 	b.WriteString("/-- (flag name, viper key bound by bindFlags, pflag type, default, Go paths of the fields the real Load changes when only this flag is given) -/\n")
 	b.WriteString("abbrev FlagRow := String × String × String × String × List String\n")
